@@ -76,6 +76,40 @@ def _keep_fasta_pairs_together(chunks: Iterator[memoryview]) -> Iterator[memoryv
         yield memoryview(leftover)
 
 
+class _FinalNewlineAdder:
+    """
+    Wrap a binary file so that the data read from it ends with a newline.
+
+    dnaio.read_paired_chunks() does not regard a last record that lacks the final
+    newline as complete. If that record is all that is left of one file while the
+    other file has not been read to its end, it fails with "Premature end of
+    paired-end input" although a single-core run accepts the same files.
+
+    readinto() fills the buffer completely unless the end of the file is reached,
+    so that the newline is delivered together with the last piece of data.
+    """
+
+    def __init__(self, file):
+        self._file = file
+        self._last_byte = b"\n"
+        self._at_eof = False
+
+    def readinto(self, buffer) -> int:
+        view = memoryview(buffer)
+        total = 0
+        while total < len(view) and not self._at_eof:
+            n = self._file.readinto(view[total:])
+            if n:
+                total += n
+                self._last_byte = bytes(view[total - 1 : total])
+            else:
+                self._at_eof = True
+                if self._last_byte != b"\n":
+                    view[total : total + 1] = b"\n"
+                    total += 1
+        return total
+
+
 class ReaderProcess(mpctx_Process):
     """
     Read chunks of FASTA or FASTQ data (single-end or paired) and send them to a worker.
@@ -176,7 +210,9 @@ class ReaderProcess(mpctx_Process):
                     while file.peek(1)[:1] == b"#":
                         file.readline()
             for chunks in dnaio.read_paired_chunks(
-                files[0], files[1], self.buffer_size
+                _FinalNewlineAdder(files[0]),
+                _FinalNewlineAdder(files[1]),
+                self.buffer_size,
             ):
                 yield chunks
         else:
